@@ -172,11 +172,13 @@ func (c *Ctx) c07FalsyTable() {
 			}
 		}
 		rets := c07Returns(fd.Body)
+		ldefs := localDefs(info, fd.Body)
 		if len(rets) == 1 && len(rets[0].Results) == 1 && len(params) == 2 {
-			if call, isCall := unparen(rets[0].Results[0]).(*ast.CallExpr); isCall && callIs(info, call, mx(c07TypesPkg), "", "IsTrueString") && len(call.Args) == 2 {
-				a0 := stripConv(info, call.Args[0])
+			if call, isCall := ldefs.resolve1(info, rets[0].Results[0]).(*ast.CallExpr); isCall && callIs(info, call, mx(c07TypesPkg), "", "IsTrueString") && len(call.Args) == 2 {
+				// `text := string(stdout)` / `n := exitNum`: a single-definition local stands for its definition
+				a0 := ldefs.resolve1(info, stripConv(info, ldefs.resolve1(info, call.Args[0])))
 				id0, ok0 := a0.(*ast.Ident)
-				id1, ok1 := unparen(call.Args[1]).(*ast.Ident)
+				id1, ok1 := ldefs.resolve1(info, call.Args[1]).(*ast.Ident)
 				ok = ok0 && ok1 && info.ObjectOf(id0) == params[0] && info.ObjectOf(id1) == params[1]
 			}
 		}
@@ -189,6 +191,7 @@ func (c *Ctx) c07FalsyTable() {
 	if fd, _ := c.MustFunc("R07b", c06ExprPkg, "", "node2primitive"); fd != nil {
 		boolPrim, _ := c06PrimConst(c, "Boolean")
 		found := false
+		ldefs := localDefs(epk.TypesInfo, fd.Body)
 		for _, call := range calls(fd.Body, false) {
 			if !callIs(epk.TypesInfo, call, mx(c06PrimPkg), "", "NewPrimitive") || len(call.Args) != 2 {
 				continue
@@ -197,7 +200,7 @@ func (c *Ctx) c07FalsyTable() {
 				continue
 			}
 			found = true
-			inner, isCall := unparen(call.Args[1]).(*ast.CallExpr)
+			inner, isCall := ldefs.resolve1(epk.TypesInfo, call.Args[1]).(*ast.CallExpr)
 			ok := isCall && (callIs(epk.TypesInfo, inner, mx(c07TypesPkg), "", "IsTrueString") || callIs(epk.TypesInfo, inner, mx(c07TypesPkg), "", "IsTrue")) && len(inner.Args) == 2
 			if ok {
 				v, isC := constInt(epk.TypesInfo, inner.Args[1])
@@ -251,15 +254,26 @@ func (c *Ctx) c07IsTrueString(info *types.Info, fd *ast.FuncDecl) {
 	// returns "norm" for ToLower(TrimSpace(p)) in either nesting, "raw" for p, "lower", "trim", "" otherwise
 	var normOf func(e ast.Expr, depth int) string
 	normOf = func(e ast.Expr, depth int) string {
+		if depth > 6 {
+			return ""
+		}
 		e = defs.resolve1(info, e)
 		if id, ok := e.(*ast.Ident); ok {
+			// a local (or the parameter itself) that is re-assigned in straight-line code:
+			// `s := strings.TrimSpace(stdout); s = strings.ToLower(s)` — the use sees the last
+			// preceding assignment of the same statement list
+			if d, state := c07ReachingDef(info, fd.Body, id); state == "def" {
+				return normOf(d, depth+1)
+			} else if state == "?" {
+				return ""
+			}
 			if info.ObjectOf(id) == strObj {
 				return "raw"
 			}
 			return ""
 		}
 		call, ok := e.(*ast.CallExpr)
-		if !ok || len(call.Args) != 1 || depth > 3 {
+		if !ok || len(call.Args) != 1 {
 			return ""
 		}
 		inner := normOf(call.Args[0], depth+1)
@@ -357,6 +371,7 @@ func (c *Ctx) c07IsTrueString(info *types.Info, fd *ast.FuncDecl) {
 		ret    *ast.ReturnStmt
 		guards []Guard
 		val    bool
+		expr   ast.Expr // non-constant result: evaluated like a guard (`return !(s == "" || …)`)
 	}
 	var sites []retSite
 	undec := ""
@@ -371,10 +386,14 @@ func (c *Ctx) c07IsTrueString(info *types.Info, fd *ast.FuncDecl) {
 		}
 		b, ok := constBool(info, r.Results[0])
 		if !ok {
-			undec = "non-constant result " + c.src(r.Results[0])
+			if bt, isB := info.TypeOf(r.Results[0]).Underlying().(*types.Basic); !isB || bt.Info()&types.IsBoolean == 0 {
+				undec = "non-boolean result " + c.src(r.Results[0])
+				return true
+			}
+			sites = append(sites, retSite{ret: r, guards: guardsAt(info, stack), expr: defs.resolve1(info, r.Results[0])})
 			return true
 		}
-		sites = append(sites, retSite{r, guardsAt(info, stack), b})
+		sites = append(sites, retSite{ret: r, guards: guardsAt(info, stack), val: b})
 		return true
 	})
 	if undec != "" || len(sites) == 0 {
@@ -423,6 +442,13 @@ func (c *Ctx) c07IsTrueString(info *types.Info, fd *ast.FuncDecl) {
 				}
 			}
 			if enabled {
+				if st.expr != nil {
+					v, ok := evalCond(st.expr, sm)
+					if !ok {
+						return false, "result " + c.src(st.expr)
+					}
+					return v, ""
+				}
 				return st.val, ""
 			}
 		}
@@ -476,6 +502,151 @@ func (c *Ctx) c07IsTrueString(info *types.Info, fd *ast.FuncDecl) {
 	if got, why := run(sample{"x", -1}); why == "" && got {
 		c.Info("R07b: IsTrueString returns true for every negative exit number; this is the convention by which and/or (ExitNum = -1) report success without output. The property's 'any non-zero exit is false' is checked for exit > 0 only.")
 	}
+}
+
+// c07ReachingDef: for a use `id` of a local variable or parameter that is
+// assigned more than once (or a parameter assigned at all), returns the
+// right-hand side of the assignment that reaches the use, provided the answer
+// is structural: every assignment of the variable is a plain `=`/`:=` with a
+// matching right-hand side and all of them are direct statements of ONE
+// statement list, which for a local also holds its declaration (so a loop
+// around the list starts every iteration with a fresh variable) and for a
+// parameter is the function body. The reaching assignment then is the last
+// one that ends before the use. state: "def" (expression returned), "none"
+// (no assignment precedes the use / variable never re-assigned: caller falls
+// back to its own handling), "?" (not structural).
+func c07ReachingDef(info *types.Info, body *ast.BlockStmt, id *ast.Ident) (ast.Expr, string) {
+	obj := info.ObjectOf(id)
+	if obj == nil {
+		return nil, "none"
+	}
+	type def struct {
+		stmt ast.Stmt
+		rhs  ast.Expr
+		list ast.Node
+		decl bool
+	}
+	var ds []def
+	bad := false
+	walkStack(body, func(n ast.Node, stack []ast.Node) bool {
+		parentList := func() ast.Node {
+			if len(stack) < 2 {
+				return nil
+			}
+			switch p := stack[len(stack)-2].(type) {
+			case *ast.BlockStmt, *ast.CaseClause, *ast.CommClause:
+				return p
+			}
+			return nil
+		}
+		switch x := n.(type) {
+		case *ast.AssignStmt:
+			for i, l := range x.Lhs {
+				li, ok := l.(*ast.Ident)
+				if !ok || info.ObjectOf(li) != obj {
+					continue
+				}
+				if (x.Tok != token.ASSIGN && x.Tok != token.DEFINE) || len(x.Lhs) != len(x.Rhs) || parentList() == nil {
+					bad = true
+					continue
+				}
+				ds = append(ds, def{x, x.Rhs[i], parentList(), x.Tok == token.DEFINE && info.Defs[li] == obj})
+			}
+		case *ast.ValueSpec:
+			for i, nm := range x.Names {
+				if info.Defs[nm] != obj {
+					continue
+				}
+				// var s = … inside a DeclStmt
+				var ds0 ast.Stmt
+				var lst ast.Node
+				for j := len(stack) - 1; j >= 1; j-- {
+					if d, ok := stack[j].(*ast.DeclStmt); ok {
+						ds0 = d
+						switch p := stack[j-1].(type) {
+						case *ast.BlockStmt, *ast.CaseClause, *ast.CommClause:
+							lst = p
+						}
+					}
+				}
+				if ds0 == nil || lst == nil {
+					bad = true
+					continue
+				}
+				if len(x.Values) == len(x.Names) {
+					ds = append(ds, def{ds0, x.Values[i], lst, true})
+				} else if len(x.Values) == 0 {
+					ds = append(ds, def{ds0, nil, lst, true}) // zero value
+				} else {
+					bad = true
+				}
+			}
+		case *ast.IncDecStmt:
+			if li, ok := unparen(x.X).(*ast.Ident); ok && info.ObjectOf(li) == obj {
+				bad = true
+			}
+		case *ast.RangeStmt:
+			for _, e := range []ast.Expr{x.Key, x.Value} {
+				if li, ok := e.(*ast.Ident); ok && info.ObjectOf(li) == obj {
+					bad = true
+				}
+			}
+		case *ast.UnaryExpr:
+			if li, ok := unparen(x.X).(*ast.Ident); ok && x.Op == token.AND && info.ObjectOf(li) == obj {
+				bad = true
+			}
+		case *ast.FuncLit:
+			if mentions(info, x, obj) {
+				bad = true
+			}
+		}
+		return true
+	})
+	if len(ds) == 0 && !bad {
+		return nil, "none"
+	}
+	_, isParam := obj.(*types.Var)
+	isParam = isParam && obj.Parent() != nil && obj.Pos() < body.Pos() // declared in the signature
+	if !isParam && len(ds) == 1 && !bad {
+		return nil, "none" // single definition: resolve1 territory
+	}
+	if bad {
+		return nil, "?"
+	}
+	var list ast.Node
+	hasDecl := false
+	for _, d := range ds {
+		if list == nil {
+			list = d.list
+		}
+		if d.list != list {
+			return nil, "?"
+		}
+		hasDecl = hasDecl || d.decl
+	}
+	if isParam {
+		if list != ast.Node(body) {
+			return nil, "?"
+		}
+	} else if !hasDecl {
+		return nil, "?"
+	}
+	var best *def
+	for i := range ds {
+		if ds[i].stmt.End() <= id.Pos() && (best == nil || ds[i].stmt.End() > best.stmt.End()) {
+			best = &ds[i]
+		}
+	}
+	if best == nil {
+		if isParam {
+			return nil, "none" // still the caller's value
+		}
+		return nil, "?"
+	}
+	if best.rhs == nil {
+		return nil, "?"
+	}
+	return best.rhs, "def"
 }
 
 // c07Recasts: Boolean arms of the go*Recast functions.
@@ -826,6 +997,7 @@ func (c *Ctx) c07PairedVerdicts(info *types.Info, fd *ast.FuncDecl) []c07Verdict
 		}
 		return nil
 	}
+	ldefs := localDefs(info, fd.Body)
 	for _, call := range calls(fd.Body, true) {
 		if !(callIs(info, call, mx(c07TypesPkg), "", "IsTrue") || callIs(info, call, mx(c07TypesPkg), "", "IsTrueString")) || len(call.Args) != 2 {
 			continue
@@ -886,7 +1058,8 @@ func (c *Ctx) c07PairedVerdicts(info *types.Info, fd *ast.FuncDecl) []c07Verdict
 			v.mode = "fork"
 		case "Stdin":
 			// exit number must be <proc>.Previous.ExitNum of the same process
-			es, ok := unparen(call.Args[1]).(*ast.SelectorExpr)
+			// `n := p.Previous.ExitNum; IsTrue(b, n)`: a single-definition local stands for its definition
+			es, ok := ldefs.resolve1(info, call.Args[1]).(*ast.SelectorExpr)
 			if ok && es.Sel.Name == "ExitNum" {
 				if ps, ok := unparen(es.X).(*ast.SelectorExpr); ok && ps.Sel.Name == "Previous" && rootObj(ps.X) == owner && owner == procObj {
 					v.mode = "stdin"
@@ -1105,7 +1278,34 @@ func (c *Ctx) c07CheckIf(pk *packages.Package, fd *ast.FuncDecl) {
 		}
 		return true
 	})
-	if branch == nil || branch.Else == nil {
+	// the two arms: if/else, or `if c { …; return }` followed by the rest of the enclosing statement list
+	var firstArm, secondArm ast.Node
+	if branch != nil {
+		firstArm = branch.Body
+		if branch.Else != nil {
+			secondArm = branch.Else
+		} else if terminates(info, branch.Body.List) {
+			walkStack(fd.Body, func(n ast.Node, stack []ast.Node) bool {
+				if n != ast.Node(branch) || len(stack) < 2 {
+					return true
+				}
+				var list []ast.Stmt
+				switch p := stack[len(stack)-2].(type) {
+				case *ast.BlockStmt:
+					list = p.List
+				case *ast.CaseClause:
+					list = p.Body
+				}
+				for i, st := range list {
+					if st == ast.Stmt(branch) {
+						secondArm = &ast.BlockStmt{List: list[i+1:]}
+					}
+				}
+				return true
+			})
+		}
+	}
+	if branch == nil || secondArm == nil {
 		c.Undecided("R07c", "if:polarity", fd.Pos(), "cmdIf has no if/else on the verdict")
 		return
 	}
@@ -1115,7 +1315,12 @@ func (c *Ctx) c07CheckIf(pk *packages.Package, fd *ast.FuncDecl) {
 		return
 	}
 	good := tbl[1][0] && !tbl[0][0] && !tbl[1][1] && tbl[0][1]
-	c.Check(good, "R07c", "if:polarity", branch.Pos(), "cmdIf takes the first arm exactly when verdict != IsNot (%s; table verdict×IsNot = %v)", c.src(branch.Cond), tbl)
+	// the inverted test (`verdict == IsNot`) with the arms exchanged is the same decision
+	inverted := !tbl[1][0] && tbl[0][0] && tbl[1][1] && !tbl[0][1]
+	if inverted {
+		firstArm, secondArm = secondArm, firstArm
+	}
+	c.Check(good || inverted, "R07c", "if:polarity", branch.Pos(), "cmdIf decides between its two arms exactly by verdict != IsNot (%s; table verdict×IsNot = %v)", c.src(branch.Cond), tbl)
 	// which block each arm executes: blocks[k]; k must be the flag value that setFlag stores for "then"/"else"
 	flagOf := map[string]int64{}
 	if sf, _ := c.MustFunc("R07c", c07StructsPkg, "", "setFlag"); sf != nil {
@@ -1159,15 +1364,15 @@ func (c *Ctx) c07CheckIf(pk *packages.Package, fd *ast.FuncDecl) {
 		}
 		return idx, found == 1
 	}
-	thenIdx, ok1 := armBlock(branch.Body)
-	elseIdx, ok2 := armBlock(branch.Else)
+	thenIdx, ok1 := armBlock(firstArm)
+	elseIdx, ok2 := armBlock(secondArm)
 	tv, okT := flagOf["then"]
 	ev, okE := flagOf["else"]
 	if !ok1 || !ok2 || !okT || !okE {
 		c.Undecided("R07c", "if:blocks", branch.Pos(), "cannot identify the blocks executed by the two arms of cmdIf / the flag values of setFlag")
 		return
 	}
-	c.Check(thenIdx == tv && elseIdx == ev, "R07c", "if:blocks", branch.Pos(), "the verdict-true arm executes blocks[%d] (the `then` block is stored at %d) and the other arm blocks[%d] (`else` is stored at %d)", thenIdx, tv, elseIdx, ev)
+	c.Check(thenIdx == tv && elseIdx == ev, "R07c", "if:blocks", branch.Pos(), "the arm taken when verdict != IsNot executes blocks[%d] (the `then` block is stored at %d) and the other arm blocks[%d] (`else` is stored at %d)", thenIdx, tv, elseIdx, ev)
 }
 
 func (c *Ctx) c07CheckNot(pk *packages.Package, fd *ast.FuncDecl) {
@@ -2098,15 +2303,29 @@ func (c *Ctx) c07Tokens() {
 	}
 	byName, _ := c06ExpConstNames(c)
 	for _, w := range []struct{ word, sym string }{{"true", "Boolean"}, {"false", "Boolean"}, {"null", "Null"}} {
-		var cc *ast.CaseClause
+		// the arm that handles the word: a case clause listing it, or the body of an
+		// `if x == "word" || …` (an if/else-if chain instead of the switch)
+		var cc ast.Node
+		var ccBody []ast.Stmt
 		ast.Inspect(fd.Body, func(nd ast.Node) bool {
-			k, ok := nd.(*ast.CaseClause)
-			if !ok {
-				return true
-			}
-			for _, e := range k.List {
-				if sv, ok := constString(info, e); ok && sv == w.word {
-					cc = k
+			switch k := nd.(type) {
+			case *ast.CaseClause:
+				for _, e := range k.List {
+					if sv, ok := constString(info, e); ok && sv == w.word {
+						cc, ccBody = k, k.Body
+					}
+				}
+			case *ast.IfStmt:
+				for _, d := range disjuncts(k.Cond) {
+					be, ok := unparen(d).(*ast.BinaryExpr)
+					if !ok || be.Op != token.EQL {
+						continue
+					}
+					sx, okx := constString(info, be.X)
+					sy, oky := constString(info, be.Y)
+					if (okx && !oky && sx == w.word) || (oky && !okx && sy == w.word) {
+						cc, ccBody = k, k.Body.List
+					}
 				}
 			}
 			return true
@@ -2117,7 +2336,7 @@ func (c *Ctx) c07Tokens() {
 			continue
 		}
 		var sym int64 = -1
-		for _, s := range cc.Body {
+		for _, s := range ccBody {
 			for _, call := range calls(s, false) {
 				if callIs(info, call, mx(c06ExprPkg), "ParserT", "appendAst") && len(call.Args) >= 1 && sym < 0 {
 					if v, ok := constInt(info, call.Args[0]); ok {
